@@ -496,6 +496,19 @@ def run(world, rep, tier, only=None):
                "a comparison of s_users[%s] with fs->super->s_uuid reaches `%s` without %s being reset: %d comparison(s)" %
                ("/".join(sorted(iv)), n.text()[:30], "/".join(sorted(iv)), len(cmp_)))
 
+    # ------------------------------------------------------------------ C11.o switching the quota feature off disables every quota type
+    # e2p_edit_feature2() has cleared the feature bit already; what removes the quota inodes is quota_enable[] set to
+    # QOPT_DISABLE for every type.  Nothing but the FEATURE_OFF test itself may stand in front of that - in particular
+    # not Q_flag, which other arms of the same function (project) set as well.
+    qd = [n for n in ufs.events("S") if "QOPT_DISABLE" in T.macros(n.ev.get("rhs") or {}) and "quota_enable" in T.vars_in(n.ev["lhs"])
+          and any(t is True and "EXT4_FEATURE_RO_COMPAT_QUOTA" in T.macros(a_) and "old_features" in T.vars_in(a_)
+                  for t, a_ in control_lits(ufs, n))]       # FEATURE_OFF(quota): the old set had the bit
+    rep.floor("C11.o stores of QOPT_DISABLE in update_feature_set", len(qd), 1)
+    for i, n in enumerate(qd):
+        extra = [T.pp(a_)[:30] for t, a_ in control_lits(ufs, n) + restrict_lits(ufs, n) if t is not None and "Q_flag" in T.vars_in(a_)]
+        rep.ob("C11.o", site(ufs, "every quota type disabled whatever -Q or other arms said#%d" % i), not extra,
+               "`%s` is not guarded by Q_flag: %s" % (n.text()[:40], extra))
+
 
 def _hurd_lit(a):
     return "EXT2_OS_HURD" in T.macros(a)
